@@ -340,6 +340,8 @@ def steps_for(info, cand, tier):
         S.append(mk("using-construct", "-using-construct", "using-construct", out="text"))
         return S
     S.append(mk("update", "-makeupdate", "update", [["-depth", "i", "depth", "3"], ["-type", "s", "type", "level"]], of=True, writes=True, out="matrix"))
+    # an update that selects nothing new still replaces whatever refinement was pending (explored one step beyond the depth of the tier, see TAIL)
+    S.append(mk("update-small", "-makeupdate", "update", [["-depth", "i", "depth", "0"], ["-type", "s", "type", "level"]], of=True, writes=True, out="matrix"))
     if th:
         S.append(mk("update+curved", "-mu", "update", [["-dt", "i", "depth", "3"], ["-tt", "s", "type", "ipcurved"]],
                     [["-af", "iv", "aniso", 1, 2 * d, ([1, 2][:d] + [0, 1][:d])]], of=True, writes=True, out="matrix"))
@@ -973,7 +975,8 @@ def main():
     frontier = []
     depth_done = -1
     alpha_max = 0
-    for depth in range(0, MAXDEPTH + 1):
+    TAIL = ("update-small",)   # one extra level with this small alphabet, from the states that hold values and a pending refinement
+    for depth in range(0, MAXDEPTH + 2):
         units_total += 1
         t0 = time.time()
         tr0, dist0 = book.transitions, len(book.distinct)
@@ -984,6 +987,8 @@ def main():
             for sk in frontier:
                 s = states[sk]
                 sts = steps_for(s["info"], s["cand"], TIER)
+                if depth == MAXDEPTH + 1:
+                    sts = [st for st in sts if st["name"] in TAIL] if (s["info"].get("nl", 0) > 0 and s["info"].get("nn", 0) > 0) else []
                 alpha_max = max(alpha_max, len(sts))
                 for st in sts:
                     tasks.append((sk, st, sk[0]))
@@ -1055,7 +1060,7 @@ def main():
             emit({"t": "note", "text": "%s: %d occurrences (3 written out)" % (sig, n)})
     nb = sum(1 for k in states if k[0] == "binary")
     emit({"t": "note", "text": "distinct grid-file states: %d (%d binary, %d ascii); scripts completed up to make + %d command(s)" % (len(states), nb, len(states) - nb, max(depth_done, 0))})
-    emit({"t": "summary", "units_total": units_total, "units_done": units_done, "exhaustive": exhaustive and depth_done == MAXDEPTH,
+    emit({"t": "summary", "units_total": units_total, "units_done": units_done, "exhaustive": exhaustive and depth_done >= MAXDEPTH + 1,
           "bound": "C16 tier=%s: all scripts make* (%d configurations x 2 grid formats) + up to %d command(s) over an alphabet of %s commands per state; completed depth %d; %d states, %d transitions"
                    % (TIER, len(make_lattice(TIER)), MAXDEPTH, "up to %d" % alpha_max, depth_done, len(states), book.transitions)})
     shutil.rmtree(SCRATCH, ignore_errors=True)
